@@ -3,7 +3,7 @@
 // Case kinds (one line in cases.txt, one line in impl.txt; bytes hex-encoded):
 //
 //	DEC <hexdoc> <class>
-//	    cue=<canon|REJECT> std=<canon|REJECT|INVALID> valid=<0|1> dec=<same|diff|-> blt=<same|diff|-> m=<hex|->
+//	    cue=<canon|REJECT> std=<canon|REJECT|INVALID> valid=<0|1> dec=<same|diff|-> blt=<same|diff|-> nfc=<table> val=<ok|err|PANIC> m=<hex|->
 //	    cue: json.Extract + BuildExpr + walk; std: encoding/json token walk (UseNumber),
 //	    last duplicate wins; dec: the streaming Decoder agrees with Extract; blt: the
 //	    builtin encoding/json.Unmarshal agrees with Extract; m: Value.MarshalJSON bytes.
@@ -346,7 +346,7 @@ func decoderCanon(doc []byte) string {
 	return walkCanon(v)
 }
 
-var bltUnmarshal, bltMarshal cue.Value
+var bltUnmarshal, bltMarshal, topValue cue.Value
 
 func initBuiltins() {
 	v := ctx.CompileString(`import "encoding/json"
@@ -356,6 +356,7 @@ M: {v: _, out: json.Marshal(v)}
 	if v.Err() != nil {
 		panic(v.Err())
 	}
+	topValue = ctx.CompileString("_")
 	bltUnmarshal = v.LookupPath(cue.ParsePath("U"))
 	bltMarshal = v.LookupPath(cue.ParsePath("M"))
 }
@@ -455,6 +456,13 @@ func (e *emitter) dec(doc []byte, class string) {
 	if valid {
 		nt = nfcTable(doc)
 	}
+	// encoding/json.Validate(doc, _): json.Valid + CompileBytes + Unify + Validate(Final)
+	val := guard(func() string {
+		if err := cuejson.Validate(doc, topValue); err != nil {
+			return "err"
+		}
+		return "ok"
+	})
 	m := "-"
 	var mb []byte
 	if cc != "REJECT" && cc != "PANIC" {
@@ -472,7 +480,7 @@ func (e *emitter) dec(doc []byte, class string) {
 		vb = 1
 	}
 	e.out.Emit(fmt.Sprintf("DEC %s %s", common.Hex(string(doc)), class),
-		fmt.Sprintf("cue=%s std=%s valid=%d dec=%s blt=%s nfc=%s m=%s", cc, std, vb, dc, bl, nt, m))
+		fmt.Sprintf("cue=%s std=%s valid=%d dec=%s blt=%s nfc=%s val=%s m=%s", cc, std, vb, dc, bl, nt, val, m))
 	if mb != nil && !e.noExtra {
 		e.enc(mb, "remarshal", cc, v)
 	}
